@@ -640,6 +640,7 @@ static int _parse_inline(qaconf_t *qaconf, FILE *fp, uint8_t flags,
     goto exitloop;                                                          \
 } while (0);
 
+        qaconf_cbdata_t *cbdata = NULL;
         if (fgets(buf, MAX_LINESIZE, fp) == NULL) {
             // Check if section was opened and never closed
             if (cbdata_parent != NULL) {
@@ -662,8 +663,7 @@ static int _parse_inline(qaconf_t *qaconf, FILE *fp, uint8_t flags,
         DEBUG("%s (line=%d)", buf, qaconf->lineno);
 
         // Create a callback data
-        qaconf_cbdata_t *cbdata = (qaconf_cbdata_t*) malloc(
-                sizeof(qaconf_cbdata_t));
+        cbdata = (qaconf_cbdata_t*) malloc(sizeof(qaconf_cbdata_t));
         ASSERT(cbdata != NULL);
         memset(cbdata, '\0', sizeof(qaconf_cbdata_t));
         if (cbdata_parent != NULL) {
